@@ -31,6 +31,8 @@ variable {α : Type} [NumOps α] [∀ a b : α, Decidable (a < b)] [∀ a b : α
 def LOG_10 : α := ln (lit 10)
 
 def absGt (x t : α) : Bool := decide (t < x) || decide (t < -x)
+/-- `fabs(x) < t` -/
+def absLt (x t : α) : Bool := decide (x < t) && decide (-x < t)
 def absv (x : α) : α := if x < lit 0 then -x else x
 def maxv (x y : α) : α := if x < y then y else x
 /-- `equal(a, b, eps)` of utilities.cpp: `fabs(a - b) <= eps` -/
@@ -88,7 +90,7 @@ def Row.fails (e : Env α) (it : Nat) (r : Row α) : Bool :=
   | .surf m f =>
       let res := m - f
       if m ≤ e.minRel then absGt res e.tol
-      else if decide (absv res < e.ineqTol) && decide (absv res < lit (1 / 100) * m) then false
+      else if absLt res e.ineqTol && absLt res (lit (1 / 100) * m) then false
       else absGt res (e.tol * m)
 
 /-- what `check_residuals()` does for a row: (prints an ERROR, sets `remove_unstable_phases`) -/
@@ -109,7 +111,7 @@ def Row.check (e : Env α) (r : Row α) : Bool × Bool :=
       ((decide (m ≤ e.minRel) && absGt (m - f) e.tol) || (decide (e.minRel < m) && absGt (m - f) (e.tol * m)), false)
   | .surf m f =>
       let res := m - f
-      if decide (absv res < e.ineqTol) && decide (absv res < lit (1 / 100) * m) then (false, false)
+      if absLt res e.ineqTol && absLt res (lit (1 / 100) * m) then (false, false)
       else ((decide (m ≤ e.minRel) && absGt res e.tol) || (decide (e.minRel < m) && absGt res (e.tol * m)), false)
 
 /-! ## `ineq()` special case and `reset()` for pure phases -/
